@@ -328,6 +328,7 @@ class MethodAnalysis:
         self.return_conds = []  # path conditions at each `return`
         self.key_cover = {}  # table -> [formula over $]: IDs made keys by a completed creation loop of this call
         self.accepted = set()  # key terms accepted by an IDDict store
+        self.size_flags = {}  # local flag name -> boolean expression of size comparisons it was bound to
         self.size_formulas = {}  # (condition id, id(Compare node)) -> formula of a size comparison, fixed when the branch is taken
         self.memb = set()  # (rel-with-side, edge term, node term) memberships known to hold
         self.hashable_sources = set()
@@ -517,6 +518,20 @@ class MethodAnalysis:
             return None if r is None else r[len(conds):]
         self.if_counter += 1
         cid = self.if_counter
+        if self.size_flags and any(isinstance(n, ast.Name) and n.id in self.size_flags for n in ast.walk(st.test)):
+            flags = dict(self.size_flags)
+
+            class _Deref(ast.NodeTransformer):
+                def visit_Name(self, n):
+                    return flags[n.id] if n.id in flags and isinstance(n.ctx, ast.Load) else n
+
+            import copy as _copy
+
+            shell = _copy.copy(st)
+            shell.test = _Deref().visit(_copy.deepcopy(st.test)) if not isinstance(st.test, ast.Name) else flags[st.test.id]
+            if isinstance(st.test, ast.UnaryOp) and isinstance(st.test.op, ast.Not) and isinstance(st.test.operand, ast.Name) and st.test.operand.id in flags:
+                shell.test = ast.copy_location(ast.UnaryOp(op=ast.Not(), operand=flags[st.test.operand.id]), st.test)
+            st = shell
         for sub in ast.walk(st.test):
             if isinstance(sub, ast.Compare) and len(sub.ops) == 1 and isinstance(sub.ops[0], (ast.Eq, ast.NotEq)):
                 f = Balance(self).size_compare(sub, env)
@@ -1596,6 +1611,18 @@ class MethodAnalysis:
             self.assign_to(t, val, st, env, conds, loops)
             if isinstance(t, ast.Name):
                 self.test_alias.pop(t.id, None)
+                self.size_flags.pop(t.id, None)
+                found = False
+                for sub in ast.walk(st.value):
+                    if isinstance(sub, ast.Compare) and len(sub.ops) == 1 and isinstance(sub.ops[0], (ast.Eq, ast.NotEq)):
+                        f = Balance(self).size_compare(sub, env)
+                        if f is not None:
+                            self.size_formulas[(0, id(sub))] = f
+                            found = True
+                if found and isinstance(st.value, (ast.BoolOp, ast.Compare, ast.UnaryOp)):
+                    # `ok = len(a) == len(b) and ...`: a later `if not ok:` stands for the expression (its size
+                    # comparisons were evaluated here, with the contents the sets have now)
+                    self.size_flags[t.id] = st.value
                 v = st.value
                 core = v.operand if isinstance(v, ast.UnaryOp) and isinstance(v.op, ast.Not) else v
                 if isinstance(core, ast.Compare) and len(core.ops) == 1 and isinstance(core.ops[0], (ast.In, ast.NotIn)):
@@ -1855,6 +1882,9 @@ class Balance:
                         return f if isinstance(test.ops[0], ast.In) else Not(f)
         if getattr(test, "_const_membership", False) and getattr(test, "_const_formula", None) is not None:
             return test._const_formula
+        if isinstance(test, ast.Compare) and (0, id(test)) in ma.size_formulas:
+            # part of a flag expression: computed when the flag was assigned
+            return ma.size_formulas[(0, id(test))]
         if isinstance(test, ast.Compare) and (cid, id(test)) in ma.size_formulas:
             # computed when the branch was taken (the contents of the stored entries are those of that moment)
             return ma.size_formulas[(cid, id(test))]
